@@ -4,7 +4,7 @@
    The fact [r_ok] of a ProveToRV (32) request stands for: token signed by the key of the registered voucher's device
    certificate for the claimed GUID, nonce = the one issued in this session, registration not expired.  Expiry and the
    device-side check are exercised on the implementation (clock positions around the expiry second; altered blobs). *)
-From FDO Require Import Cbor.Typed Cose.Sign1 Cose.Sign1Facts Fdo.Server Fdo.ServerFacts.
+From FDO Require Import Cbor.Typed Cose.Sign1 Cose.Sign1Facts Fdo.Server Fdo.ServerFacts Fdo.Owner Fdo.OwnerFacts.
 Local Open Scope N_scope.
 
 (* RVRedirect (33) answers only a 32 passing every check, with the token of a TO1 session whose HelloRV was answered *)
@@ -46,6 +46,19 @@ Theorem C07_signature_exact : forall O_der O_rfc O_verify tP tA key prot stored 
                   is_rs alg = false /\ is_ps alg = true /\ O_verify id SchPss h tbs [sig] = true))).
 Proof. exact sign1_verify_exact. Qed.
 Print Assumptions C07_signature_exact.
+
+(* what [r_ok] of a 32 means in bytes: the body the rendezvous server accepted is a COSE_Sign1 over a claims map whose
+   nonce claim is the nonce of this session and whose UEID is 0x01 followed by a 16-byte GUID that has a live
+   registration, and the signature verifies under the device key of THAT registration (correspondence: kind srv.proof) *)
+Theorem C07_proof_bytes : forall O_der O_rfc O_verify registered nonce body,
+  prove_to_rv_ok O_der O_rfc O_verify registered nonce body = true ->
+  exists prot unprot pl sig eat guid key,
+    open_token O_der O_rfc body = Some (prot, unprot, pl, sig, eat) /\
+    claim 10 eat = Some (VBytes nonce) /\ claim 256 eat = Some (VBytes (byte_of_N 1 :: guid)) /\ length guid = 16%nat /\
+    registered guid = Some key /\
+    sign1_verify O_der O_rfc O_verify TRaw TBytes key prot (Some (VRaw pl)) None sig (VBytes []) = Ok true.
+Proof. exact prove_to_rv_sound. Qed.
+Print Assumptions C07_proof_bytes.
 
 Example C07_run :
   snd (run [] [mkreq 30 TInvalid true false false; mkreq 32 (TSess 0) false false false;
